@@ -223,6 +223,7 @@ def run(step, repo, tier='quick', seed=0):
             res['verification_time_s'] += r['time'] or 0
             ent = {'name': m['name'], 'target': m.get('target'), 'time_s': r['time'], 'complete': m.get('complete', True), 'result': r['result'], 'paired': bool(m.get('paired')), 'covers': m.get('covers', []),
                    'checks': m.get('checks')}
+            ent['failed_tags'] = sorted(set(t for d in r['failed'] for t in re.findall(r'\[(C\d+|B\d)\]', d[0])) | (set(['*']) if any(not re.findall(r'\[(C\d+|B\d)\]', d[0]) for d in r['failed']) else set()))
             res['harness_list'].append(ent)
             res['obligations'] += 1
             if not m.get('complete', True):
